@@ -1209,6 +1209,27 @@ def _list_add_impl(ctx: CallContext) -> ImplReturn:
     return flatten_unions(inner, ctx.vars["self"], ctx.vars["x"])
 
 
+def _tuple_add_impl(ctx: CallContext) -> ImplReturn:
+    def inner(left: Value, right: Value) -> Value:
+        left = replace_known_sequence_value(left)
+        right = replace_known_sequence_value(right)
+        if (
+            isinstance(left, SequenceValue)
+            and isinstance(right, SequenceValue)
+            and left.typ is tuple
+            and right.typ is tuple
+        ):
+            return SequenceValue.make_or_known(tuple, [*left.members, *right.members])
+        elif isinstance(left, TypedValue) and isinstance(right, TypedValue):
+            left_arg = left.get_generic_arg_for_type(tuple, ctx.visitor, 0)
+            right_arg = right.get_generic_arg_for_type(tuple, ctx.visitor, 0)
+            return GenericValue(tuple, [unite_values(left_arg, right_arg)])
+        else:
+            return TypedValue(tuple)
+
+    return flatten_unions(inner, ctx.vars["self"], ctx.vars["x"])
+
+
 def _list_extend_or_iadd_impl(
     ctx: CallContext, iterable_arg: str, name: str, *, return_container: bool = False
 ) -> ImplReturn:
@@ -1859,6 +1880,15 @@ def get_default_argspecs() -> dict[object, Signature]:
             callable=list.__add__,
             impl=_list_add_impl,
             return_annotation=TypedValue(list),
+        ),
+        Signature.make(
+            [
+                SigParameter("self", _POS_ONLY, annotation=TypedValue(tuple)),
+                SigParameter("x", _POS_ONLY, annotation=TypedValue(tuple)),
+            ],
+            callable=tuple.__add__,
+            impl=_tuple_add_impl,
+            return_annotation=TypedValue(tuple),
         ),
         Signature.make(
             [
